@@ -66,6 +66,12 @@ def _install_signatures(model: Model) -> None:
             table[name].append(ps)
     for nm in clash:
         table.pop(nm, None)
+    # constructors: the __init__ found through the class hierarchy
+    for ci in model.all_classes:
+        init = ci.find_method("__init__")
+        if init is not None and init.node.args.vararg is None and ci.name not in table:
+            a = init.node.args
+            table[ci.name] = [[x.arg for x in list(a.posonlyargs) + list(a.args)][1:]]
     # module-level functions are also reachable as `<module>.<name>`: that spelling is unambiguous even when the bare name is not
     for f in model.all_functions:
         if f.cls is None and f.parent is None and not f.is_overload and f.node.args.vararg is None:
